@@ -11,6 +11,7 @@ mod mchecks;
 mod mgen;
 mod model;
 mod mworld;
+mod pairs;
 mod rng;
 mod runner;
 
@@ -52,7 +53,19 @@ fn drive<C: Check>(c: &C, args: &[String]) -> i32 {
 
 macro_rules! checks {
     ($mac:ident) => {
-        $mac!(("C08", mchecks::C08), ("C09", mchecks::C09), ("C10a", mchecks::C10A), ("C13", c13::C13 { observer_arm: false }), ("C16", c16::C16), ("C27", mchecks::C27), ("C28", mchecks::C28), ("C28b", c13::C13 { observer_arm: true }));
+        $mac!(
+            ("C08", mchecks::C08),
+            ("C09", mchecks::C09),
+            ("C10", runner::Both { id: "C10", a: mchecks::C10A, b: pairs::C10B, a_share: 7, rule: "Arm A (7/8 of runs): gate/entry invariants in lockstep with RefLc3 — 1-4 competing scripted sources (edge and level), real keyboard interrupts (IE set by the host) and a real seeded timer over soup and structured workloads; every step either enters exactly one interrupt (only if max pending priority > PSR priority, vector from the highest-priority tie set, old PSR/PC pushed on the supervisor stack, R6/saved-SP swap, PSR privilege and priority) or executes exactly one instruction; non-trivial: >=1 interrupt taken. Arm B (1/8): transparency — see its own rule in DESIGN.md §6 C10: exhaustive placements of up to two interrupts over short programs, sampled placements over long ones, final state equals the uninterrupted run." }),
+            ("C11", pairs::C11),
+            ("C12", pairs::C12),
+            ("C13", c13::C13 { observer_arm: false }),
+            ("C14", pairs::C14),
+            ("C16", c16::C16),
+            ("C27", mchecks::C27),
+            ("C28", runner::Both { id: "C28", a: mchecks::C28, b: c13::C13 { observer_arm: true }, a_share: 6, rule: "Arm A (6/8): per-step exactness against RefLc3 (see C28 lockstep rule: read/written/modified sets per step_in, untracked host accesses in between). Arm B (2/8): accumulation — the observer after run/run_with_limit/run_while/step_over/step_out equals the union of the per-step observer sets of a twin simulator driven by step_in over the same boundaries, and is empty after being taken." }),
+            ("C31", pairs::C31)
+        );
     };
 }
 
